@@ -9,6 +9,8 @@
 package main
 
 import (
+	"crypto/sha1"
+	"encoding/hex"
 	"encoding/json"
 	"flag"
 	"fmt"
@@ -43,6 +45,7 @@ var skipFuncs = map[string]bool{"DotGraph": true, "PlotGraph": true, "PlotGraphP
 
 func main() {
 	repo := flag.String("repo", "/repo", "repository root")
+	neutral := flag.Bool("neutral", false, "emit behaviour-preserving rewrites instead of mutants (every check must stay silent on them)")
 	flag.Parse()
 	cfg := &packages.Config{Mode: packages.LoadSyntax, Dir: *repo, Env: append(os.Environ(), "GOFLAGS=-mod=mod", "GOPROXY=off", "GOSUMDB=off", "GOTOOLCHAIN=local", "GOWORK=off")}
 	pkgs, err := packages.Load(cfg, ".", "./components", "./cmd/scipipe")
@@ -66,7 +69,7 @@ func main() {
 			if err != nil {
 				panic(err)
 			}
-			m := &mutator{pkg: pkg, fset: pkg.Fset, src: src, rel: rel}
+			m := &mutator{pkg: pkg, fset: pkg.Fset, src: src, rel: rel, neutral: *neutral}
 			for _, d := range f.Decls {
 				fd, ok := d.(*ast.FuncDecl)
 				if !ok || fd.Body == nil || skipFuncs[fd.Name.Name] {
@@ -81,27 +84,46 @@ func main() {
 			muts = append(muts, m.out...)
 		}
 	}
+	rank := func(f string) int {
+		for i, x := range []string{"task.go", "process.go", "port.go", "workflow.go", "ip.go", "sink.go", "baseprocess.go", "common.go", "components/", "audit.go", "cmd/scipipe/audit_reports.go"} {
+			if strings.HasPrefix(f, x) {
+				return i
+			}
+		}
+		return 99
+	}
 	sort.SliceStable(muts, func(i, j int) bool {
+		if ri, rj := rank(muts[i].File), rank(muts[j].File); ri != rj {
+			return ri < rj
+		}
 		if muts[i].File != muts[j].File {
 			return muts[i].File < muts[j].File
 		}
 		return muts[i].Start < muts[j].Start
 	})
 	enc := json.NewEncoder(os.Stdout)
+	n := 0
 	for i := range muts {
-		muts[i].ID = fmt.Sprintf("M%04d", i+1)
+		if rank(muts[i].File) == 99 {
+			continue // CLI argument parsing, scaffolding
+		}
+		h := sha1.Sum([]byte(fmt.Sprintf("%s:%d:%d:%s", muts[i].File, muts[i].Start, muts[i].End, muts[i].Repl)))
+		muts[i].ID = "M" + hex.EncodeToString(h[:4])
 		enc.Encode(muts[i])
+		n++
 	}
+	fmt.Fprintf(os.Stderr, "%d mutants emitted\n", n)
 	fmt.Fprintf(os.Stderr, "%d mutants\n", len(muts))
 }
 
 type mutator struct {
-	pkg  *packages.Package
-	fset *token.FileSet
-	src  []byte
-	rel  string
-	fn   string
-	out  []Mut
+	pkg     *packages.Package
+	fset    *token.FileSet
+	src     []byte
+	rel     string
+	fn      string
+	out     []Mut
+	neutral bool
 }
 
 func (m *mutator) off(p token.Pos) int { return m.fset.Position(p).Offset }
@@ -134,12 +156,36 @@ func isLogCall(e ast.Expr) bool {
 	return false
 }
 
+// isMsgCall: Fail/Failf/Check/CheckWithMsg/errWrap...: the arguments only make up a message.
+func isMsgCall(c *ast.CallExpr) bool {
+	name := ""
+	switch f := c.Fun.(type) {
+	case *ast.SelectorExpr:
+		name = f.Sel.Name
+	case *ast.Ident:
+		name = f.Name
+	}
+	switch name {
+	case "Fail", "Failf", "errWrap", "errWrapf", "Errorf", "New", "Sprintf", "Println", "Printf", "Fatalln", "Fatalf":
+		return true
+	}
+	return false
+}
+
 func (m *mutator) walk(body *ast.BlockStmt) {
+	if m.neutral {
+		m.walkNeutral(body)
+		return
+	}
 	ast.Inspect(body, func(n ast.Node) bool {
 		switch x := n.(type) {
 		case *ast.CallExpr:
 			if isLogCall(x) {
 				return false // nothing inside a log call matters
+			}
+			if isMsgCall(x) {
+				m.call(x) // the call itself may be swapped (Failf -> Auditf), its message arguments are not mutated
+				return false
 			}
 			m.call(x)
 		case *ast.IfStmt:
@@ -237,6 +283,9 @@ func (m *mutator) lit(x *ast.BasicLit) {
 			m.add("int-const", x.Pos(), x.End(), "0")
 			m.add("int-const", x.Pos(), x.End(), "2")
 		default:
+			if strings.HasPrefix(x.Value, "0") && len(x.Value) == 4 {
+				return // file permissions
+			}
 			m.add("int-const", x.Pos(), x.End(), "("+x.Value+"+1)")
 			m.add("int-const", x.Pos(), x.End(), "("+x.Value+"-1)")
 		}
@@ -283,6 +332,9 @@ func (m *mutator) call(c *ast.CallExpr) {
 				alts = alts[:4]
 			}
 			for _, a := range alts {
+				if a == "String" || a == "ID" {
+					continue // String() is Path(); ID() of an IP is never a path
+				}
 				m.add("method-swap", sel.Sel.Pos(), sel.Sel.End(), a)
 			}
 		}
@@ -334,5 +386,109 @@ func (m *mutator) field(sel *ast.SelectorExpr) {
 		}
 		m.add("field-swap", sel.Sel.Pos(), sel.Sel.End(), f.Name())
 		n++
+	}
+}
+
+// walkNeutral: behaviour-preserving rewrites (each compiles to the same behaviour by construction).
+func (m *mutator) walkNeutral(body *ast.BlockStmt) {
+	info := m.pkg.TypesInfo
+	isNil := func(e ast.Expr) bool { id, ok := e.(*ast.Ident); return ok && id.Name == "nil" }
+	pure := func(e ast.Expr) bool { // no calls (except len), no receives
+		ok := true
+		ast.Inspect(e, func(n ast.Node) bool {
+			switch x := n.(type) {
+			case *ast.CallExpr:
+				if id, isId := x.Fun.(*ast.Ident); !isId || (id.Name != "len" && id.Name != "cap") {
+					ok = false
+				}
+			case *ast.UnaryExpr:
+				if x.Op == token.ARROW {
+					ok = false
+				}
+			}
+			return ok
+		})
+		return ok
+	}
+	ast.Inspect(body, func(n ast.Node) bool {
+		switch x := n.(type) {
+		case *ast.CallExpr:
+			if isLogCall(x) {
+				return false
+			}
+		case *ast.BinaryExpr:
+			switch x.Op {
+			case token.EQL, token.NEQ:
+				// commutativity: a == b  ->  b == a
+				if pure(x.X) && pure(x.Y) {
+					m.add("n-swap-eq", x.Pos(), x.End(), m.text(x.Y)+" "+x.Op.String()+" "+m.text(x.X))
+				}
+				_ = isNil
+			case token.GTR:
+				// len(x) > 0  ->  len(x) >= 1 ;  a > b -> b < a
+				if lit, ok := x.Y.(*ast.BasicLit); ok && lit.Value == "0" {
+					if t := info.TypeOf(x.X); t != nil {
+						if b, ok := t.Underlying().(*types.Basic); ok && b.Info()&types.IsInteger != 0 {
+							m.add("n-gt0-ge1", x.Pos(), x.End(), m.text(x.X)+" >= 1")
+						}
+					}
+				}
+				if pure(x.X) && pure(x.Y) {
+					m.add("n-flip-rel", x.Pos(), x.End(), m.text(x.Y)+" < "+m.text(x.X))
+				}
+			case token.LSS:
+				if pure(x.X) && pure(x.Y) {
+					m.add("n-flip-rel", x.Pos(), x.End(), m.text(x.Y)+" > "+m.text(x.X))
+				}
+			}
+		case *ast.IfStmt:
+			// if c { A } else { B }  ->  if !(c) { B } else { A }      (else must be a block)
+			if eb, ok := x.Else.(*ast.BlockStmt); ok && x.Init == nil {
+				m.add("n-swap-arms", x.Pos(), x.End(), "if !("+m.text(x.Cond)+") "+m.text(eb)+" else "+m.text(x.Body))
+			}
+			// if a && b { A }  (no else) -> if a { if b { A } }
+			if be, ok := x.Cond.(*ast.BinaryExpr); ok && be.Op == token.LAND && x.Else == nil && x.Init == nil {
+				m.add("n-nest-and", x.Pos(), x.End(), "if "+m.text(be.X)+" { if "+m.text(be.Y)+" "+m.text(x.Body)+" }")
+			}
+			// if c {..}  ->  if !(!(c)) {..}
+			m.add("n-double-neg", x.Cond.Pos(), x.Cond.End(), "!(!("+m.text(x.Cond)+"))")
+		case *ast.AssignStmt:
+			// s += a  ->  s = s + a  (identifiers only)
+			if x.Tok == token.ADD_ASSIGN && len(x.Lhs) == 1 {
+				if id, ok := x.Lhs[0].(*ast.Ident); ok {
+					m.add("n-expand-addassign", x.Pos(), x.End(), id.Name+" = "+id.Name+" + "+m.text(x.Rhs[0]))
+				}
+			}
+		case *ast.ReturnStmt:
+			// return e  ->  { res := e; return res }   (single non-nil result, not a bare identifier)
+			if len(x.Results) == 1 {
+				if _, isId := x.Results[0].(*ast.Ident); !isId {
+					if t := info.TypeOf(x.Results[0]); t != nil {
+						if _, isTuple := t.(*types.Tuple); !isTuple {
+							m.add("n-return-via-local", x.Pos(), x.End(), "{ vpRes := "+m.text(x.Results[0])+"; return vpRes }")
+						}
+					}
+				}
+			}
+		case *ast.RangeStmt:
+			// for k, v := range m  ->  for k := range m { v := m[k]; ... }   (maps, pure collection expression, := form)
+			if x.Tok == token.DEFINE && x.Key != nil && x.Value != nil && pure(x.X) {
+				if t := info.TypeOf(x.X); t != nil {
+					if _, isMap := t.Underlying().(*types.Map); isMap {
+						k, kok := x.Key.(*ast.Ident)
+						v, vok := x.Value.(*ast.Ident)
+						if kok && vok && k.Name != "_" && v.Name != "_" {
+							bodyTxt := m.text(x.Body)
+							m.add("n-range-key-lookup", x.Pos(), x.End(), "for "+k.Name+" := range "+m.text(x.X)+" { "+v.Name+" := "+m.text(x.X)+"["+k.Name+"]; "+bodyTxt[1:])
+						}
+					}
+				}
+			}
+		}
+		return true
+	})
+	// a debug log line at function entry
+	if len(body.List) > 0 && strings.HasPrefix(m.rel, "components/") == false && !strings.HasPrefix(m.rel, "cmd/") {
+		m.add("n-log-at-entry", body.Lbrace+1, body.Lbrace+1, "\n\tDebug.Printf(\"entering %s\", \""+m.fn+"\")\n")
 	}
 }
